@@ -5,8 +5,8 @@ from vlib import sqlgen
 from . import common
 
 
-def _scripts(n, seed, depth=(1, 2, 2, 3), multi=True, kinds=None):
-    g = sqlgen.Gen(random.Random(seed), alias_p=0.5)
+def _scripts(n, seed, depth=(1, 2, 2, 3), multi=True, kinds=None, schemas=("sa", "sb")):
+    g = sqlgen.Gen(random.Random(seed), schemas=schemas, alias_p=0.5)
     rnd = random.Random(seed + 1)
     kinds = kinds or ["insert", "insert", "insert_cols", "ctas", "create_view", "bare", "update_from", "merge", "with_insert", "insert_values", "create_like", "delete"]
     out = []
@@ -31,6 +31,19 @@ def cases_for_invariants(tier):
     for i, sql in enumerate(_scripts(n, seed)):
         d = "ansi" if i % 4 else ["mysql", "postgres", "sparksql", "snowflake", "bigquery", "non-validating"][i // 4 % 6]
         out.append({"sql": sql, "dialect": d, "metadata": None, "silent": False, "want": ["inv"], "src": "generated"})
+    # column graphs with cycles (tables that feed each other), with and without an exit to an ordinary target
+    cyc = [
+        "insert into ta select k from tc; insert into tb select k from ta; insert into tc select k from tb; insert into out_t select k from tb",
+        "insert into ta select k from tb; insert into tb select k from ta; insert into out_t select k from ta",
+        "insert into ta select k, v from tb; insert into tb select k, w as v from ta; insert into out_t select k, v from tb; insert into out2 select v from out_t",
+        "insert into ta select x.k from tb x join src s on x.k = s.k; insert into tb select k from ta; insert into out_t select k from tb",
+        "insert into ta select k from ta; insert into out_t select k from ta",
+        "insert into ta select k from tb; insert into tb select k from tc; insert into tc select k from ta",
+        "create table m1 as select s.a from s; insert into m2 select a from m1; insert into m1 select a from m2; insert into fin select a from m2; insert into fin2 select a from m1",
+    ]
+    for sql in cyc:
+        for d in ("ansi", "non-validating", "mysql"):
+            out.append({"sql": sql, "dialect": d, "metadata": None, "silent": False, "want": ["inv"], "src": "generated:cycle"})
     # metadata variants: expansion and late resolution paths
     md = {"sa.tb_k1": ["c_1", "c_2"], "sb.tb_k2": ["c_1", "k_1"], "zz.o": ["q"]}
     for i, sql in enumerate(_scripts(n // 6, seed + 5)):
@@ -52,7 +65,7 @@ def cases_for_determinism(tier, rnd):
 def cases_for_rewrites(tier, rnd):
     n = 150 if tier == "quick" else 2500
     out = []
-    for i, sql in enumerate(_scripts(n, common.env.seed() * 13 + 505, multi=False)):
+    for i, sql in enumerate(_scripts(n, common.env.seed() * 13 + 505, multi=False, schemas=("sa", "dbx.scy", "sb"))):
         d = "ansi" if i % 3 else ["mysql", "postgres", "sparksql", "snowflake", "bigquery", "tsql"][i // 3 % 6]
         out.append({"sql": sql, "dialect": d, "metadata": None, "src": "generated"})
     return out
